@@ -191,10 +191,10 @@ class Call(Expr):
     def __init__(self, fn, args): self.fn, self.args, self.ty = fn, args, fn.ret      # fn: Func (resolved by the generator)
     def src(self): return self.fn.name + "(" + ", ".join(a.src() for a in self.args) + ")"
     def core(self, c=True, top=True):
-        # the pass converts the arguments of a call it visits, but never looks inside them
+        # the pass converts the arguments of a call it visits, after descending into them
         args = []
         for a, (pn, pt) in zip(self.args, self.fn.params):
-            inner = a.core(False)
+            inner = a.core(c)
             if c and top and isinstance(a.ty, (Sc, Vec, Mat)) and isinstance(pt, (Sc, Vec, Mat)) and a.ty.comp != pt.comp:
                 inner = "(cast %s %s)" % (with_comp(a.ty, pt.comp).sexp(), inner)
             args.append(inner)
@@ -237,7 +237,7 @@ class Construct(Expr):
     def core(self, c=True, top=True):
         args = []
         for a in self.args:
-            inner = a.core(False)
+            inner = a.core(c)
             if c and top and a.ty.comp != self.ty.comp:
                 inner = "(cast %s %s)" % (with_comp(a.ty, self.ty.comp).sexp(), inner)
             args.append(inner)
